@@ -242,6 +242,7 @@ def flagsLine : String :=
   " ret=" ++ (if estimators.all (fun c => fitReturns c == ["self"]) then "1" else "0") ++
   " predictPure=" ++ (if estimators.all predictPureSrc then "1" else "0") ++
   " helperPure=" ++ ",".intercalate (allHelpers.map (fun h => if helperPure h then "1" else "0")) ++
+  " helperClosure=" ++ "|".intercalate (allHelpers.flatMap helperPredictClosure) ++
   " helperCalls=" ++ "|".intercalate (helperPredictCalls .TO) ++ "," ++ "|".intercalate (helperPredictCalls .ADV) ++
   " overwritesAll=" ++ (if [EstCls.TO, .EG, .GS].all (fun c => (fitHistoryReads c).isEmpty && (predictReadsNotOverwritten c).isEmpty)
       then "1" else "0") ++
